@@ -11476,6 +11476,9 @@ class Use_Stmt(StmtBase):  # pylint: disable=invalid-name
                 if not line_nat:
                     return None
                 nature = Module_Nature(line_nat)
+            elif line[:idx].strip():
+                # Only ', Module_Nature' may stand between 'USE' and '::'
+                return None
             line = line[idx + 2 :].lstrip()
             # No Module_Name after 'USE, Module_Nature ::'
             if not line:
